@@ -3,6 +3,7 @@ package checks
 import (
 	"errors"
 	"fmt"
+	"os"
 	"sort"
 	"strings"
 	"time"
@@ -26,8 +27,15 @@ type idmModel struct {
 	usedUids map[int]bool
 }
 
+// the names of the administrator user and group of the identity manager under test ("root"/"root" for the Linux
+// type; the Windows-typed part, run by a worker of the avfs_setostype build, sets the names of that type)
+var c15AdminUser, c15AdminGroup = "root", "root"
+
+// c15NewIdm creates the identity manager under test: Linux-typed by default, Windows-typed in the os part.
+var c15NewIdm = func() *memidm.MemIdm { return memidm.New() }
+
 func newIdmModel() *idmModel {
-	return &idmModel{groups: map[string]int{"root": 0}, users: map[string][2]int{"root": {0, 0}}, usedGids: map[int]bool{0: true}, usedUids: map[int]bool{0: true}}
+	return &idmModel{groups: map[string]int{c15AdminGroup: 0}, users: map[string][2]int{c15AdminUser: {0, 0}}, usedGids: map[int]bool{0: true}, usedUids: map[int]bool{0: true}}
 }
 
 func (m *idmModel) clone() *idmModel {
@@ -302,10 +310,10 @@ func idmGen(r interface{ IntN(int) int }) idmOp {
 // operations - rebuilding or shrinking its maps - happens inside the history).
 func c15Sequential(c *rt.Ctx, h, n int, churn bool) {
 	r := c.Rand(fmt.Sprintf("seq-%d-%d", n, h))
-	idm := memidm.New()
+	idm := c15NewIdm()
 	m := newIdmModel()
 	var hist []string
-	if au := idm.AdminUser(); au.Uid() != 0 || au.Gid() != 0 || !au.IsAdmin() || au.Name() != "root" || idm.AdminGroup().Gid() != 0 {
+	if au := idm.AdminUser(); au.Uid() != 0 || au.Gid() != 0 || !au.IsAdmin() || au.Name() != c15AdminUser || idm.AdminGroup().Gid() != 0 {
 		c.Disagree("seq|admin-missing", "the administrator user/group (id 0) do not exist from the start", nil)
 	}
 	dels := 0
@@ -420,7 +428,7 @@ func c15Concurrent(c *rt.Ctx, h int, seenInter map[uint64]bool) {
 	// a shared prefix makes the window interesting: some groups/users exist already
 	setup := []idmOp{{K: "AddGroup", Name: "alice"}, {K: "AddUser", Name: "bob", Grp: "alice"}}
 	runOne := func(choose func(e *sched.Exec, enabled []int) int) (*sched.Exec, []idmEvent, *memidm.MemIdm, sched.Verdict, string) {
-		idm := memidm.New()
+		idm := c15NewIdm()
 		var evs []idmEvent
 		for _, o := range setup {
 			out := idmExec(idm, o)
@@ -536,8 +544,32 @@ func init() {
 				Assumptions: []string{"when both the group is unknown and the user exists, either documented error is accepted"}}
 		},
 		CrashIsViolation: true,
+		OSShards: 1,
 		Run: func(c *rt.Ctx) {
 			hook.Sequential()
+			if os.Getenv("VERIF_PART") == "os" {
+				// the Windows-typed identity manager (the one a Windows-typed MemFS gets by default): other administrator
+				// names, the user's differing from the group's; the same model and monitors, sequential histories only
+				if avfs.BuildFeatures()&avfs.FeatSetOSType == 0 {
+					c.Rep.Inconclusive = append(c.Rep.Inconclusive, "the Windows-typed part runs in a worker built without the avfs_setostype tag")
+					return
+				}
+				c15NewIdm = func() *memidm.MemIdm { return memidm.NewWithOptions(&memidm.Options{OSType: avfs.OsWindows}) }
+				c15AdminUser, c15AdminGroup = avfs.AdminUserName(avfs.OsWindows), avfs.AdminGroupName(avfs.OsWindows)
+				idmNames = []string{c15AdminUser, c15AdminGroup, "alice", "bob"}
+				if t := c15NewIdm(); t.OSType() != avfs.OsWindows {
+					c.Disagree("seq|windows-typed|construction", fmt.Sprintf("memidm.NewWithOptions(OSType Windows) reports %s", t.OSType()), nil)
+					return
+				}
+				for h := 0; h < c.Pick(300, 6000); h++ {
+					c15Sequential(c, h, 200, false)
+				}
+				for h := 0; h < c.Pick(4, 40); h++ {
+					c15Sequential(c, h, 6000, true)
+				}
+				c.Rep.Count("windows_typed_histories", int64(c.Pick(304, 6040)))
+				return
+			}
 			for h := 0; h < c.Pick(400, 20000); h++ {
 				if h%c.NShards == c.Shard {
 					c15Sequential(c, h, 200, false)
